@@ -52,6 +52,7 @@ def replay_stream(ctx):
         rs = rng.choice([1, 3, 20])
         g = hist.Gen(random.Random(rng.random()), rs, alpha=hist.ALPHA[:9], max_calls=9 if quick else 18, ops_level=(i % 3 == 0), malformed=0.05)
         bases.append(g.history({"rs": rs, "cache": "file"}, []))
+    bases = streams.replay_override(ctx, "history", bases, lambda h: dict(h, calls=[{k: v for k, v in c.items() if k not in ("obs", "tag", "j")} for c in h["calls"]], obs=[]))
     ph1 = hist.run_many([dict(h, calls=h["calls"] + [{"op": "nop", "obs": ["tape"]}]) for h in bases])
     comps = []
     for h, (res, rc, err) in zip(bases, ph1):
